@@ -21,10 +21,12 @@ import (
 	"seehuhn.de/go/sfnt/glyf"
 	"seehuhn.de/go/sfnt/glyph"
 	"seehuhn.de/go/sfnt/header"
+	"seehuhn.de/go/sfnt/opentype/anchor"
 	"seehuhn.de/go/sfnt/opentype/classdef"
 	"seehuhn.de/go/sfnt/opentype/coverage"
 	"seehuhn.de/go/sfnt/opentype/gdef"
 	"seehuhn.de/go/sfnt/opentype/gtab"
+	"seehuhn.de/go/sfnt/opentype/markarray"
 
 	"verif.local/harness/internal/fonts"
 )
@@ -53,8 +55,38 @@ type Feature struct {
 
 // Lookup is a simple lookup: rules in priority order.
 type Lookup struct {
-	Ty    int     `json:"ty"`
-	Rules [][]int `json:"rules"`
+	Ty    int      `json:"ty"`
+	Flags []string `json:"flags"` // "base", "lig", "mark": IgnoreBaseGlyphs, IgnoreLigatures, IgnoreMarks
+	Rules [][]int  `json:"rules"`
+	Cls   []ClsSub `json:"cls"`   // GPOS 2: class-based subtables, tried before the glyph pairs
+	Bases [][]int  `json:"bases"` // GPOS 4: base glyph, then one anchor (x, y) per mark class
+}
+
+// ClsSub is a class-based pair adjustment subtable: coverage, the two class definitions (glyphs
+// left out have class 0), whether there are value records for the second glyph, and the matrix
+// of <<dAdv1, dPlace1, dAdv2>>.
+type ClsSub struct {
+	CovG []int     `json:"cov"`
+	C1   [][]int   `json:"c1"`
+	C2   [][]int   `json:"c2"`
+	Two  int       `json:"two"`
+	M    [][][]int `json:"m"`
+}
+
+// Norm makes the optional parts of a lookup non-nil, so that they are logged as [] and not null.
+func (lk *Lookup) Norm() {
+	if lk.Flags == nil {
+		lk.Flags = []string{}
+	}
+	if lk.Rules == nil {
+		lk.Rules = [][]int{}
+	}
+	if lk.Cls == nil {
+		lk.Cls = []ClsSub{}
+	}
+	if lk.Bases == nil {
+		lk.Bases = [][]int{}
+	}
 }
 
 // Table is a GSUB or GPOS table.
@@ -234,6 +266,7 @@ type Font struct {
 	Cm     []CmSub `json:"cm"`
 	Widths []int   `json:"widths"`
 	Marks  []int   `json:"marks"`
+	Ligs   []int   `json:"ligs"` // GDEF class ligature (the font has a GDEF table iff it has marks)
 	Gsub   Table   `json:"gsub"`
 	Gpos   Table   `json:"gpos"`
 	Kern   Kern    `json:"kern"`
@@ -276,6 +309,18 @@ func ranks(keys []glyph.ID) coverage.Table {
 // variant > 0 additionally splits ligature rule lists in two subtables.
 func lookupTable(kind string, lk Lookup, variant int) (*gtab.LookupTable, error) {
 	res := &gtab.LookupTable{Meta: &gtab.LookupMetaInfo{LookupType: uint16(lk.Ty)}}
+	for _, fl := range lk.Flags {
+		switch fl {
+		case "base":
+			res.Meta.LookupFlags |= gtab.IgnoreBaseGlyphs
+		case "lig":
+			res.Meta.LookupFlags |= gtab.IgnoreLigatures
+		case "mark":
+			res.Meta.LookupFlags |= gtab.IgnoreMarks
+		default:
+			return nil, fmt.Errorf("lookup flag %q", fl)
+		}
+	}
 	switch {
 	case kind == "GSUB" && lk.Ty == 1:
 		var cur [][]int
@@ -404,7 +449,54 @@ func lookupTable(kind string, lk Lookup, variant int) (*gtab.LookupTable, error)
 			}
 			res.Subtables = append(res.Subtables, &gtab.Gsub4_1{Cov: cov, Repl: repl})
 		}
+	case kind == "GPOS" && lk.Ty == 4:
+		var mk, bs []glyph.ID
+		for _, r := range lk.Rules {
+			mk = append(mk, glyph.ID(r[0]))
+		}
+		for _, r := range lk.Bases {
+			bs = append(bs, glyph.ID(r[0]))
+		}
+		st := &gtab.Gpos4_1{MarkCov: ranks(mk), BaseCov: ranks(bs)}
+		st.MarkArray = make([]markarray.Record, len(lk.Rules))
+		for _, r := range lk.Rules {
+			st.MarkArray[st.MarkCov[glyph.ID(r[0])]] = markarray.Record{Class: uint16(r[1]),
+				Table: anchor.Table{X: funit.Int16(r[2]), Y: funit.Int16(r[3])}}
+		}
+		st.BaseArray = make([][]anchor.Table, len(lk.Bases))
+		for _, r := range lk.Bases {
+			var row []anchor.Table
+			for i := 1; i+1 < len(r); i += 2 {
+				row = append(row, anchor.Table{X: funit.Int16(r[i]), Y: funit.Int16(r[i+1])})
+			}
+			st.BaseArray[st.BaseCov[glyph.ID(r[0])]] = row
+		}
+		res.Subtables = append(res.Subtables, st)
 	case kind == "GPOS" && lk.Ty == 2:
+		for _, cs := range lk.Cls {
+			st := &gtab.Gpos2_2{Cov: coverage.Set{}, Class1: classdef.Table{}, Class2: classdef.Table{}}
+			for _, g := range cs.CovG {
+				st.Cov[glyph.ID(g)] = true
+			}
+			for _, e := range cs.C1 {
+				st.Class1[glyph.ID(e[0])] = uint16(e[1])
+			}
+			for _, e := range cs.C2 {
+				st.Class2[glyph.ID(e[0])] = uint16(e[1])
+			}
+			for _, row := range cs.M {
+				var r []*gtab.PairAdjust
+				for _, e := range row {
+					adj := &gtab.PairAdjust{First: &gtab.GposValueRecord{XAdvance: funit.Int16(e[0]), XPlacement: funit.Int16(e[1])}}
+					if cs.Two == 1 {
+						adj.Second = &gtab.GposValueRecord{XAdvance: funit.Int16(e[2])}
+					}
+					r = append(r, adj)
+				}
+				st.Adjust = append(st.Adjust, r)
+			}
+			res.Subtables = append(res.Subtables, st)
+		}
 		cur := gtab.Gpos2_1{}
 		curTwo := -1
 		flush := func() {
@@ -518,7 +610,8 @@ type Built struct {
 	Font   *sfnt.Font
 	File   []byte // the file the font was read from (nil for in-memory fonts)
 	Kind   string
-	Relaid bool // GSUB/GPOS were re-stored by Relayout
+	Relaid bool   // GSUB/GPOS were re-stored by Relayout
+	Hints  string // redundant fields of the file that were set against the facts
 }
 
 // Build realises a font description.  variant selects among equivalent realisations
@@ -591,7 +684,7 @@ func Build(fd Font, variant int) (*Built, error) {
 		for i := 2; i < n; i++ {
 			gc[glyph.ID(i)] = gdef.GlyphClassBase
 		}
-		for _, g := range []int{9, 10, 13, 14, 15} {
+		for _, g := range fd.Ligs {
 			if g < n {
 				gc[glyph.ID(g)] = gdef.GlyphClassLigature
 			}
@@ -625,7 +718,11 @@ func Build(fd Font, variant int) (*Built, error) {
 	}
 	data := buf.Bytes()
 	relayout := (variant>>8)&1 == 1 && (fd.Gsub.Present || fd.Gpos.Present)
-	if fd.Kern.Present || relayout {
+	hints := 0
+	if (variant>>14)&1 == 1 {
+		hints = (variant >> 10) & 15
+	}
+	if fd.Kern.Present || relayout || hints != 0 {
 		r := bytes.NewReader(data)
 		hdr, err := header.Read(r)
 		if err != nil {
@@ -658,6 +755,9 @@ func Build(fd Font, variant int) (*Built, error) {
 				}
 			}
 		}
+		if hints != 0 {
+			res.Hints = patchHints(tables, hints)
+		}
 		out := &bytes.Buffer{}
 		if _, err = header.Write(out, hdr.ScalerType, tables); err != nil {
 			return nil, fmt.Errorf("header.Write: %v", err)
@@ -671,6 +771,57 @@ func Build(fd Font, variant int) (*Built, error) {
 	res.Font = g
 	res.File = data
 	return res, nil
+}
+
+// patchHints sets redundant fields of a written file both ways.  The advance widths (hmtx) are
+// the facts; post.isFixedPitch, the PANOSE proportion digit of OS/2 and the compression of hmtx
+// (numberOfHMetrics) repeat or abbreviate them and decide nothing:
+//
+//	bits 0-1: post.isFixedPitch  1 = set, 2 = cleared, 3 = the opposite of what the file says
+//	bit 2:    OS/2 panose[3] (proportion) 9 = monospaced, or 3 if it was 9
+//	bit 3:    hmtx written in full, one longHorMetric per glyph (numberOfHMetrics = numGlyphs)
+func patchHints(tables map[string][]byte, hints int) string {
+	desc := ""
+	clone := func(name string) []byte {
+		b := append([]byte(nil), tables[name]...)
+		tables[name] = b
+		return b
+	}
+	if post := tables["post"]; len(post) >= 16 && hints&3 != 0 {
+		post = clone("post")
+		was := post[12]|post[13]|post[14]|post[15] != 0
+		set := hints&3 == 1 || (hints&3 == 3 && !was)
+		post[12], post[13], post[14], post[15] = 0, 0, 0, 0
+		if set {
+			post[15] = 1
+		}
+		desc += fmt.Sprintf("post.isFixedPitch=%v(was %v) ", set, was)
+	}
+	if os2 := tables["OS/2"]; len(os2) >= 42 && hints&4 != 0 {
+		os2 = clone("OS/2")
+		if os2[35] == 9 {
+			os2[35] = 3
+		} else {
+			os2[35] = 9
+		}
+		desc += fmt.Sprintf("panose.proportion=%d ", os2[35])
+	}
+	hhea, hm, maxp := tables["hhea"], tables["hmtx"], tables["maxp"]
+	if hints&8 != 0 && len(hhea) >= 36 && len(maxp) >= 6 {
+		n := int(maxp[4])<<8 | int(maxp[5])
+		k := int(hhea[34])<<8 | int(hhea[35])
+		if k >= 1 && k < n && len(hm) >= 4*k+2*(n-k) {
+			full := append([]byte(nil), hm[:4*k]...)
+			for i := k; i < n; i++ {
+				full = append(full, hm[4*k-4], hm[4*k-3], hm[4*k+2*(i-k)], hm[4*k+2*(i-k)+1])
+			}
+			hhea = clone("hhea")
+			hhea[34], hhea[35] = byte(n>>8), byte(n)
+			tables["hmtx"] = full
+			desc += fmt.Sprintf("numberOfHMetrics=%d(was %d) ", n, k)
+		}
+	}
+	return desc
 }
 
 // Item is one glyph of a layout result, as logged.
